@@ -1,5 +1,73 @@
+import Agd.Model.LinkIP
 import Agd.Driver.Util
-/-! Line-protocol driver for the C19 model (stub: not built yet). -/
+/-! Line-protocol driver for the C19 model.
+
+Strings travel hex-encoded (two lower-case hex digits per byte, `-` for the empty string).
+
+* `sp <method> <path>`            → `1`/`0`  (`shouldProxy`)
+* `norm <path>`                   → hex of `normalize path`
+* `host <remoteaddr>`             → `ok <hex>` or `err`  (`netutil.SplitHost`)
+* `req <base> <ua> <method> <path> <remote> (<name> <value>)*`
+    → `404` | `robots` | `500` | `proxy <path> <name>=<v>,<v>;…` over the watched header names. -/
 namespace Agd.Driver.C19
-def main : IO Unit := Agd.Driver.loop (fun (s : Unit) _ => (s, "bad-op")) ()
+open Agd.LinkIP Agd.Driver
+
+def hexVal (c : Char) : Nat :=
+  if c.isDigit then c.toNat - '0'.toNat
+  else if 'a' ≤ c ∧ c ≤ 'f' then c.toNat - 'a'.toNat + 10
+  else if 'A' ≤ c ∧ c ≤ 'F' then c.toNat - 'A'.toNat + 10
+  else 0
+
+def unhexL : List Char → Str
+  | a :: b :: r => Char.ofNat (hexVal a * 16 + hexVal b) :: unhexL r
+  | _ => []
+
+def unhex (s : String) : Str := if s == "-" then [] else unhexL s.toList
+
+def hexDigit (n : Nat) : Char :=
+  if n < 10 then Char.ofNat ('0'.toNat + n) else Char.ofNat ('a'.toNat + n - 10)
+
+def hex (s : Str) : String :=
+  if s.isEmpty then "-"
+  else String.ofList (s.flatMap fun c => [hexDigit (c.toNat / 16 % 16), hexDigit (c.toNat % 16)])
+
+def parseHdrs : List String → Hdrs
+  | n :: v :: r => (unhex n, unhex v) :: parseHdrs r
+  | _ => []
+
+def xCustom : Str := ['X', '-', 'C', 'u', 's', 't', 'o', 'm']
+def xClientIP : Str := ['X', '-', 'C', 'l', 'i', 'e', 'n', 't', '-', 'I', 'p']
+
+/-- header names reported by `req`. -/
+def watched : List Str :=
+  [hXConnectingIP, hXRequestID] ++ forwardingNames ++ [hUserAgent, xCustom, xClientIP]
+
+def showHdrs (h : Hdrs) : String :=
+  let items := watched.filterMap fun n =>
+    match vals n h with
+    | [] => none
+    | vs => some (String.ofList n ++ "=" ++ ",".intercalate (vs.map hex))
+  if items.isEmpty then "-" else ";".intercalate items
+
+def reqID : Str := ['I', 'D']
+
+def step (s : Unit) : List String → Unit × String
+  | ["sp", m, p] => (s, showB (shouldProxy (unhex m) (unhex p)))
+  | ["norm", p] => (s, hex (normalize (unhex p)))
+  | ["host", a] =>
+    (s, match splitHost (unhex a) with
+        | some h => "ok " ++ hex h
+        | none => "err")
+  | "req" :: base :: ua :: m :: p :: remote :: hs =>
+    let e : Env := { base := unhex base, reqID := reqID, ua := unhex ua }
+    let r : Req := { method := unhex m, path := unhex p, remote := unhex remote, hdrs := parseHdrs hs }
+    (s, match serve e r with
+        | .notFound => "404"
+        | .robots => "robots"
+        | .err500 => "500"
+        | .proxied path h => "proxy " ++ hex path ++ " " ++ showHdrs h)
+  | _ => (s, "bad-op")
+
+def main : IO Unit := loop step ()
+
 end Agd.Driver.C19
